@@ -48,22 +48,22 @@ Qed.
 Lemma pe_pow2_pos k : 1 <= 2 ^ k.
 Proof. induction k; cbn; lia. Qed.
 
-(* acc_column: with the minimum batch size 128 and z.len() = 2^j <= 128 (the constraint-evaluation blowup), the local
-   lookup z[i % z.len()] inside a batch is the global lookup, for every domain size 2^k and every T *)
-Theorem acc_z_index_spec k j T cs : j <= 7 ->
-  batch_iter_chunks true (2 ^ k) 128 T = Done cs ->
+(* acc_column, general form: whatever minimum batch size [mn] the source passes to batch_iter_mut!, the batch-local lookup
+   z[i % z.len()] is the global lookup as soon as z.len() = 2^j <= mn — for every domain size 2^k and every T.
+   (checks/c14.py reads [mn] off the source of acc_column and checks MAX_BLOWUP_FACTOR <= mn on every run.) *)
+Theorem acc_z_index_spec_gen k j mn T cs : 1 <= mn -> 2 ^ j <= mn ->
+  batch_iter_chunks true (2 ^ k) mn T = Done cs ->
   acc_z_index_batched (2 ^ j) cs = acc_z_index_serial (2 ^ j) (2 ^ k).
 Proof.
-  intros Hj E.
+  intros Hmn Hj E.
   assert (Hz : 2 ^ j <> 0) by (pose proof (pe_pow2_pos j); lia).
   assert (Hcov : covers (2 ^ k) cs).
-  { destruct (batch_sizes_cover true (2 ^ k) 128 T ltac:(lia)) as (cs' & E' & Hc). rewrite E in E'. inversion E'. subst. exact Hc. }
+  { destruct (batch_sizes_cover true (2 ^ k) mn T Hmn) as (cs' & E' & Hc). rewrite E in E'. inversion E'. subst. exact Hc. }
   destruct Hcov as [Hc Hs].
   unfold acc_z_index_serial. rewrite <- Hs. apply pe_acc_from; [exact Hz|exact Hc|].
-  (* offsets are multiples of 2^j *)
   set (m := Nat.log2_up T). assert (ES : npo2 T = 2 ^ m) by reflexivity.
-  destruct (Nat.lt_ge_cases (2 ^ k / npo2 T) 128) as [Hlt|Hge].
-  - rewrite (batch_iter_serial_below true (2 ^ k) 128 T Hlt) in E. inversion E. subst. repeat constructor.
+  destruct (Nat.lt_ge_cases (2 ^ k / npo2 T) mn) as [Hlt|Hge].
+  - rewrite (batch_iter_serial_below true (2 ^ k) mn T Hlt) in E. inversion E. subst. repeat constructor.
     cbn [fst]. apply Nat.mod_0_l. exact Hz.
   - assert (Hmk : m <= k).
     { destruct (Nat.le_gt_cases m k); [assumption|]. exfalso.
@@ -72,14 +72,28 @@ Proof.
     assert (Ed : 2 ^ k / npo2 T = 2 ^ (k - m)).
     { rewrite Ek at 1. apply Nat.div_mul. pose proof (npo2_pos T). lia. }
     rewrite Ed in Hge.
-    assert (H7 : 7 <= k - m).
-    { destruct (Nat.le_gt_cases 7 (k - m)); [assumption|]. exfalso.
-      assert (2 ^ (k - m) < 2 ^ 7) by (apply Nat.pow_lt_mono_r; lia). change (2 ^ 7) with 128 in H0. lia. }
-    rewrite Ek in E. rewrite (batch_iter_exact (2 ^ (k - m)) 128 T ltac:(lia) Hge) in E. inversion E. subst cs.
+    assert (H7 : j <= k - m).
+    { apply (Nat.pow_le_mono_r_iff 2); lia. }
+    rewrite Ek in E. rewrite (batch_iter_exact (2 ^ (k - m)) mn T Hmn Hge) in E. inversion E. subst cs.
     apply Forall_forall. intros c Hin. apply in_map_iff in Hin. destruct Hin as (q & <- & _). cbn [fst].
     replace (2 ^ (k - m)) with (2 ^ (k - m - j) * 2 ^ j) by (rewrite <- Nat.pow_add_r; f_equal; lia).
     rewrite Nat.mul_assoc. apply Nat.mod_mul. exact Hz.
 Qed.
+
+(* the code as written: minimum 128 = MAX_BLOWUP_FACTOR >= every admissible constraint-evaluation blowup 2^j *)
+Theorem acc_z_index_spec k j T cs : j <= 7 ->
+  batch_iter_chunks true (2 ^ k) 128 T = Done cs ->
+  acc_z_index_batched (2 ^ j) cs = acc_z_index_serial (2 ^ j) (2 ^ k).
+Proof.
+  intros Hj. apply acc_z_index_spec_gen; [lia|].
+  change 128 with (2 ^ 7). apply Nat.pow_le_mono_r; lia.
+Qed.
+
+(* a minimum of 16 (MIN_FRAGMENT_SIZE) would NOT do: trace length 8, constraint-evaluation blowup 32 (256 rows),
+   12 threads -> 16 batches of 16 rows, the local index wraps at 16 instead of 32 *)
+Example acc_z_index_min16_refuted : exists cs, batch_iter_chunks true (2 ^ 8) 16 12 = Done cs /\
+  acc_z_index_batched (2 ^ 5) cs <> acc_z_index_serial (2 ^ 5) (2 ^ 8).
+Proof. eexists. split; [vm_compute; reflexivity|]. vm_compute. discriminate. Qed.
 
 (* the guarantee rests on the minimum batch size: with smaller batches the local index is wrong *)
 Example acc_z_index_needs_min_batch : acc_z_index_batched 8 [(0, 4); (4, 4)] <> acc_z_index_serial 8 8.
